@@ -71,13 +71,13 @@ mod verif_asn_set {
             assert!(l.len() == ln && l.is_empty() == (ln == 0), "len/is_empty");
         }}
     }}
-    //@harness asn_union_kb_n2 Kb fn=SmallSetUnion::next bound="both operands <= 2 elements, values symbolic" timeout=900
+    //@harness asn_union_kb_n2 Kb fn=SmallSetUnion::next bound="both operands <= 2 elements, values symbolic" timeout=900 thorough
     op_harness!(asn_union_kb_n2, 2, union, |l, r| l || r);
-    //@harness asn_intersection_kb_n2 Kb fn=SmallSetIntersection::next bound="both operands <= 2 elements, values symbolic" timeout=900
+    //@harness asn_intersection_kb_n2 Kb fn=SmallSetIntersection::next bound="both operands <= 2 elements, values symbolic" timeout=900 thorough
     op_harness!(asn_intersection_kb_n2, 2, intersection, |l, r| l && r);
-    //@harness asn_difference_kb_n2 Kb fn=SmallSetDifference::next bound="both operands <= 2 elements, values symbolic" timeout=900
+    //@harness asn_difference_kb_n2 Kb fn=SmallSetDifference::next bound="both operands <= 2 elements, values symbolic" timeout=900 thorough
     op_harness!(asn_difference_kb_n2, 2, difference, |l, r| l && !r);
-    //@harness asn_symdiff_kb_n2 Kb fn=SmallSetSymmetricDifference::next bound="both operands <= 2 elements, values symbolic" timeout=900
+    //@harness asn_symdiff_kb_n2 Kb fn=SmallSetSymmetricDifference::next bound="both operands <= 2 elements, values symbolic" timeout=900 thorough
     op_harness!(asn_symdiff_kb_n2, 2, symmetric_difference, |l, r| l != r);
 }
 //@end
